@@ -53,6 +53,12 @@ def _solver_mod():
     return S
 
 
+def _over_budget(ctx, prefix, limit=25):
+    """A broken solver can make every run hit its iteration cap; once `limit` mismatches of a group are recorded the
+    remaining cases of that group are skipped (the verdict is already VIOLATION) so that the check terminates."""
+    return sum(1 for v in ctx.violations if v["signature"].startswith(prefix)) >= limit
+
+
 def _close(a, b, tol):
     a, b = np.asarray(a, float), np.asarray(b, float)
     return a.shape == b.shape and bool(np.all(np.isfinite(a))) and bool(np.all(np.abs(a - b) <= tol * max(1.0, np.abs(b).max() if b.size else 1.0)))
@@ -253,6 +259,8 @@ def check_kkt(ctx, S, c, idx, thorough):
     if idx % 7 == 0:
         runs.append((idx % 2 == 0, 0, "matrix", xs.copy()))         # started at the fixed point
     for adaptive, si, form, x0 in runs:
+        if _over_budget(ctx, "fista/"):
+            return
         t = _q(c["steps"][si])
         abstol = 1e-8 if adaptive else 1e-10
         prox, pname = _prox_of(S, c, idx % 3)
@@ -262,7 +270,7 @@ def check_kkt(ctx, S, c, idx, thorough):
         try:
             with warnings.catch_warnings():
                 warnings.simplefilter("ignore")
-                x, k = S.FISTA(A if form == "matrix" else Aop, b, x0.copy(), prox, maxit=200000, stepsize=t,
+                x, k = S.FISTA(A if form == "matrix" else Aop, b, x0.copy(), prox, maxit=60000 if adaptive else 20000, stepsize=t,
                                abstol=abstol, adaptive=adaptive).solve()
         except Exception as e:
             ctx.mismatch(sig + "/raises", c, "FISTA raised %r" % (e,))
@@ -302,6 +310,8 @@ def check_lm(ctx, S, c):
         x0 = _qv(st)
         ng0 = float(np.linalg.norm(_qv(g0)))
         for sparse in ((False, True) if i % 4 == 0 else (False,)):
+            if _over_budget(ctx, "lm/", 12):
+                return
             ctx.case(("lm", c["fam"], c["B"], c["c"], c["a"], c["d"], st, sparse), facet="lm/" + c["fam"])
             sig = "lm/%s/sparse=%d" % (c["fam"], sparse)
             jf = (lambda x: spa.csr_matrix(jac(x))) if sparse else jac
@@ -309,7 +319,7 @@ def check_lm(ctx, S, c):
                 with warnings.catch_warnings():
                     warnings.simplefilter("ignore")
                     with np.errstate(all="ignore"):
-                        x, info = S.LM(res, x0.copy(), jf, maxit=int(1e4), tol=1e-6, gradtol=gradtol, sparse=sparse).solve()
+                        x, info = S.LM(res, x0.copy(), jf, maxit=2000, tol=1e-6, gradtol=gradtol, sparse=sparse).solve()
             except Exception as e:
                 ctx.mismatch(sig + "/raises", c, "LM raised %r from start %r" % (e, x0.tolist()))
                 continue
